@@ -142,4 +142,207 @@ theorem blocks_nonempty (N T : Nat) (hN : 1 ≤ N) (hT : 1 ≤ T) :
 theorem blocks_length (N T : Nat) : (blocks N T).length = nBlocks N T := by
   simp [blocks]
 
+/-! ### named parameter values -/
+
+theorem lookup_perm {β : Type} (d d' : List (String × β)) (k : String) (hp : d.Perm d')
+    (hnd : (d.map Prod.fst).Nodup) : d'.lookup k = d.lookup k := by
+  induction hp with
+  | nil => rfl
+  | cons x _ ih =>
+    obtain ⟨xk, xv⟩ := x
+    simp only [List.map_cons, List.nodup_cons] at hnd
+    simp only [List.lookup_cons]
+    rw [ih hnd.2]
+  | swap x y l =>
+    obtain ⟨xk, xv⟩ := x
+    obtain ⟨yk, yv⟩ := y
+    simp only [List.map_cons, List.nodup_cons, List.mem_cons, not_or] at hnd
+    simp only [List.lookup_cons]
+    have hxy : (xk == yk) = false := beq_eq_false_iff_ne.2 fun h => hnd.1.1 h.symm
+    have hyx : (yk == xk) = false := beq_eq_false_iff_ne.2 hnd.1.1
+    by_cases h1 : k = xk
+    · subst h1; simp [hxy]
+    · by_cases h2 : k = yk
+      · subst h2; simp [hyx]
+      · have b1 : (k == xk) = false := beq_eq_false_iff_ne.2 h1
+        have b2 : (k == yk) = false := beq_eq_false_iff_ne.2 h2
+        simp only [b1, b2]
+  | trans h1 _ ih1 ih2 =>
+    have hnd2 := ((h1.map Prod.fst).nodup_iff).1 hnd
+    rw [ih2 hnd2, ih1 hnd]
+
+theorem betaVector_congr {β : Type} (names : List String) (d d' : List (String × β))
+    (h : ∀ n ∈ names, d'.lookup n = d.lookup n) : betaVector names d' = betaVector names d := by
+  induction names with
+  | nil => rfl
+  | cons n ns ih =>
+    simp only [betaVector]
+    rw [h n (List.mem_cons_self), ih fun m hm => h m (List.mem_cons_of_mem _ hm)]
+
+theorem lookup_filter {β : Type} (p : String → Bool) (d : List (String × β)) (k : String) (hk : p k = true) :
+    (d.filter fun e => p e.1).lookup k = d.lookup k := by
+  induction d with
+  | nil => rfl
+  | cons x l ih =>
+    obtain ⟨xk, xv⟩ := x
+    by_cases hx : p xk = true
+    · simp only [List.filter_cons, hx, ↓reduceIte, List.lookup_cons, ih]
+    · have hne : (k == xk) = false := by
+        apply beq_eq_false_iff_ne.2
+        intro h; rw [h] at hk; exact hx hk
+      simp only [List.filter_cons, hx, List.lookup_cons, hne]
+      exact ih
+
+theorem betaVector_ok_iff {β : Type} (names : List String) (d : List (String × β)) (vs : List β) :
+    betaVector names d = .ok vs ↔ names.map (fun n => d.lookup n) = vs.map some := by
+  induction names generalizing vs with
+  | nil =>
+    simp only [betaVector, List.map_nil]
+    constructor
+    · intro h; cases h; rfl
+    · intro h; cases vs with
+      | nil => rfl
+      | cons _ _ => simp at h
+  | cons n ns ih =>
+    simp only [betaVector, List.map_cons]
+    cases hl : d.lookup n with
+    | none =>
+      simp only
+      constructor
+      · intro h; cases h
+      · intro h; cases vs with
+        | nil => simp at h
+        | cons _ _ => simp at h
+    | some v =>
+      simp only
+      cases hr : betaVector ns d with
+      | error e =>
+        simp only
+        constructor
+        · intro h; cases h
+        · intro h
+          cases vs with
+          | nil => simp at h
+          | cons v' vs' =>
+            simp only [List.map_cons, List.cons.injEq] at h
+            have := (ih vs').2 h.2
+            rw [hr] at this; cases this
+      | ok ws =>
+        simp only
+        constructor
+        · intro h; cases h
+          simp only [List.map_cons, List.cons.injEq, true_and]
+          exact (ih ws).1 hr
+        · intro h
+          cases vs with
+          | nil => simp at h
+          | cons v' vs' =>
+            simp only [List.map_cons, List.cons.injEq, Option.some.injEq] at h
+            have := (ih vs').2 h.2
+            rw [hr] at this; cases this
+            rw [h.1]
+
+theorem betaVector_error {β : Type} (names : List String) (d : List (String × β)) (n : String)
+    (hn : n ∈ names) (hmiss : d.lookup n = none) : ∃ e, betaVector names d = .error e ∧ e ∈ names ∧ d.lookup e = none := by
+  induction names with
+  | nil => cases hn
+  | cons m ms ih =>
+    simp only [betaVector]
+    cases hl : d.lookup m with
+    | none => exact ⟨m, rfl, List.mem_cons_self, hl⟩
+    | some v =>
+      have hn' : n ∈ ms := by
+        rcases List.mem_cons.1 hn with h | h
+        · subst h; rw [hmiss] at hl; cases hl
+        · exact h
+      obtain ⟨e, he, hem, hel⟩ := ih hn'
+      exact ⟨e, by simp [he], List.mem_cons_of_mem _ hem, hel⟩
+
+/-! ### individuals -/
+
+theorem mem_distinct (ids : List Int) (i : Int) : i ∈ distinct ids ↔ i ∈ ids := by
+  induction ids with
+  | nil => simp [distinct]
+  | cons a l ih =>
+    simp only [distinct, List.mem_cons, List.mem_filter, ih, bne_iff_ne, ne_eq]
+    constructor
+    · rintro (h | h)
+      · exact Or.inl h
+      · exact Or.inr h.1
+    · rintro (h | h)
+      · exact Or.inl h
+      · by_cases hia : i = a
+        · exact Or.inl hia
+        · exact Or.inr ⟨h, hia⟩
+
+theorem nodup_distinct (ids : List Int) : (distinct ids).Nodup := by
+  induction ids with
+  | nil => simp [distinct]
+  | cons a l ih =>
+    simp only [distinct, List.nodup_cons, List.mem_filter, bne_self_eq_false, Bool.false_eq_true, and_false,
+      not_false_eq_true, true_and]
+    exact ih.filter _
+
+theorem flatMap_congr_mem {β γ : Type} (l : List β) (f g : β → List γ) (h : ∀ a ∈ l, f a = g a) :
+    l.flatMap f = l.flatMap g := by
+  induction l with
+  | nil => rfl
+  | cons a l ih =>
+    simp only [List.flatMap_cons]
+    rw [h a List.mem_cons_self, ih fun b hb => h b (List.mem_cons_of_mem _ hb)]
+
+theorem flatMap_filter_perm {β κ : Type} [BEq κ] [LawfulBEq κ] (f : β → κ) (ks : List κ) (l : List β)
+    (hnd : ks.Nodup) (hall : ∀ b ∈ l, f b ∈ ks) :
+    (ks.flatMap fun k => l.filter fun b => f b == k).Perm l := by
+  induction ks generalizing l with
+  | nil =>
+    cases l with
+    | nil => simp
+    | cons b _ => exact absurd (hall b List.mem_cons_self) (by simp)
+  | cons k ks ih =>
+    simp only [List.nodup_cons] at hnd
+    simp only [List.flatMap_cons]
+    have hrest : (ks.flatMap fun k' => l.filter fun b => f b == k') =
+        (ks.flatMap fun k' => (l.filter fun b => !(f b == k)).filter fun b => f b == k') := by
+      apply flatMap_congr_mem
+      intro k' hk'
+      rw [List.filter_filter]
+      apply List.filter_congr
+      intro b _
+      by_cases hb : f b = k'
+      · have : f b ≠ k := by rw [hb]; intro h; exact hnd.1 (h ▸ hk')
+        subst hb
+        simp [this]
+      · simp [hb]
+    rw [hrest]
+    have h2 := ih (l.filter fun b => !(f b == k)) hnd.2 (by
+      intro b hb
+      simp only [List.mem_filter, Bool.not_eq_eq_eq_not, Bool.not_true, beq_eq_false_iff_ne, ne_eq] at hb
+      rcases List.mem_cons.1 (hall b hb.1) with h | h
+      · exact absurd h hb.2
+      · exact h)
+    exact (List.Perm.append_left _ h2).trans (List.filter_append_perm _ l)
+
+theorem individuals_perm (ids : List Int) :
+    ((distinct ids).flatMap (individualRows ids)).Perm (List.range ids.length) := by
+  have h := flatMap_filter_perm (fun n => ids[n]?) ((distinct ids).map some) (List.range ids.length)
+    (List.Pairwise.map some (fun _ _ h h' => h (Option.some.inj h')) (nodup_distinct ids)) (by
+      intro n hn
+      have hn' : n < ids.length := List.mem_range.1 hn
+      simp only [List.mem_map]
+      exact ⟨ids[n], (mem_distinct ids _).2 (List.getElem_mem hn'), (List.getElem?_eq_getElem hn').symm⟩)
+  rw [List.flatMap_map] at h
+  have he : individualRows ids = fun a => (List.range ids.length).filter fun b => ids[b]? == some a := by
+    funext a; rfl
+  rw [he]
+  exact h
+
+theorem length_distinct_le (ids : List Int) : (distinct ids).length ≤ ids.length := by
+  induction ids with
+  | nil => simp [distinct]
+  | cons a l ih =>
+    simp only [distinct, List.length_cons]
+    have := List.length_filter_le (fun b => b != a) (distinct l)
+    omega
+
 end Likelihood
